@@ -98,6 +98,11 @@ func (p Precompile) Run(evm *vm.EVM, contract *vm.Contract, readOnly bool) (bz [
 		return nil, err
 	}
 
+	// The EVM can only revert its own journal: when this call fails (error or out of gas) the writes the
+	// method made to the SDK context would stay. Run the method on a cached context and write it back
+	// only when the call succeeds.
+	ctx, writeCache := ctx.CacheContext()
+
 	switch method.Name {
 	// TODO Approval transactions => need cosmos-sdk v0.46 & ibc-go v6.2.0
 	// Authorization Methods:
@@ -134,6 +139,8 @@ func (p Precompile) Run(evm *vm.EVM, contract *vm.Contract, readOnly bool) (bz [
 	if !contract.UseGas(cost) {
 		return nil, vm.ErrOutOfGas
 	}
+
+	writeCache()
 
 	return bz, nil
 }
